@@ -253,7 +253,10 @@ type tiAnswer struct {
 	shape string
 }
 
-func (a tiAnswer) body() (int, string) {
+// body renders the answer. A real node answers call i with the result of the method call i asks for, so when the
+// script has exactly one result per token method (0 symbol, 1 name, 2 decimals) and three calls were made, the
+// results are arranged by the requested method indices; degenerate scripts are served positionally.
+func (a tiAnswer) body(methods []int32) (int, string) {
 	if a.shape == "e" {
 		return 500, `{"detail":"scripted failure"}`
 	}
@@ -284,6 +287,20 @@ func (a tiAnswer) body() (int, string) {
 			default:
 				panic("bad tiAnswer shape " + a.shape)
 			}
+		}
+	}
+	if len(rs) == 3 && len(methods) == 3 {
+		byMethod := make([]string, 3)
+		ok := true
+		for i, m := range methods {
+			if m < 0 || m > 2 {
+				ok = false
+				break
+			}
+			byMethod[i] = rs[m]
+		}
+		if ok {
+			rs = byMethod
 		}
 	}
 	return 200, `{"results":[` + strings.Join(rs, ",") + `]}`
@@ -416,8 +433,9 @@ func evJSON(e *evSpec, byTx bool) string {
 func (n *fakeNode) serve(w http.ResponseWriter, r *http.Request) {
 	p := r.URL.Path
 	q := r.URL.Query()
+	key := r.Header.Get("X-API-KEY")
 	n.mu.Lock()
-	stale := r.Header.Get("X-API-KEY") != n.key
+	stale := key != n.key
 	n.mu.Unlock()
 	if stale {
 		n.fail(w, 503)
@@ -445,6 +463,10 @@ func (n *fakeNode) serve(w http.ResponseWriter, r *http.Request) {
 		}
 		n.mu.Lock()
 		defer n.mu.Unlock()
+		if key != n.key { // the case this request belongs to is over
+			n.fail(w, 503)
+			return
+		}
 		n.pageReqs = 0
 		who := ""
 		if addr != n.gov {
@@ -466,6 +488,10 @@ func (n *fakeNode) serve(w http.ResponseWriter, r *http.Request) {
 		addr := strings.TrimPrefix(p, "/events/contract/")
 		n.mu.Lock()
 		defer n.mu.Unlock()
+		if key != n.key { // the case this request belongs to is over
+			n.fail(w, 503)
+			return
+		}
 		who := ""
 		if addr != n.gov {
 			who = "@" + addr
@@ -507,6 +533,10 @@ func (n *fakeNode) serve(w http.ResponseWriter, r *http.Request) {
 		bh := q.Get("blockHash")
 		n.mu.Lock()
 		defer n.mu.Unlock()
+		if key != n.key { // the case this request belongs to is over
+			n.fail(w, 503)
+			return
+		}
 		v, ok := n.main[bh]
 		switch {
 		case n.errs["main:"+bh]:
@@ -523,6 +553,10 @@ func (n *fakeNode) serve(w http.ResponseWriter, r *http.Request) {
 		bh := strings.TrimPrefix(p, "/blockflow/headers/")
 		n.mu.Lock()
 		defer n.mu.Unlock()
+		if key != n.key { // the case this request belongs to is over
+			n.fail(w, 503)
+			return
+		}
 		h, ok := n.hdr[bh]
 		switch {
 		case n.errs["hdr:"+bh]:
@@ -538,6 +572,10 @@ func (n *fakeNode) serve(w http.ResponseWriter, r *http.Request) {
 	case p == "/blockflow/chain-info":
 		n.mu.Lock()
 		defer n.mu.Unlock()
+		if key != n.key { // the case this request belongs to is over
+			n.fail(w, 503)
+			return
+		}
 		if n.errs["height"] {
 			n.log = append(n.log, "height>e")
 			n.fail(w, 500)
@@ -549,6 +587,10 @@ func (n *fakeNode) serve(w http.ResponseWriter, r *http.Request) {
 		tx := q.Get("txId")
 		n.mu.Lock()
 		defer n.mu.Unlock()
+		if key != n.key { // the case this request belongs to is over
+			n.fail(w, 503)
+			return
+		}
 		st, ok := n.status[tx]
 		switch {
 		case n.errs["status:"+tx] || !ok:
@@ -569,6 +611,10 @@ func (n *fakeNode) serve(w http.ResponseWriter, r *http.Request) {
 		tx := strings.TrimPrefix(p, "/events/tx-id/")
 		n.mu.Lock()
 		defer n.mu.Unlock()
+		if key != n.key { // the case this request belongs to is over
+			n.fail(w, 503)
+			return
+		}
 		evs, ok := n.txev[tx]
 		if n.errs["txev:"+tx] || !ok {
 			n.log = append(n.log, "txev:"+tx+">e")
@@ -592,9 +638,15 @@ func (n *fakeNode) serve(w http.ResponseWriter, r *http.Request) {
 		json.NewDecoder(r.Body).Decode(&req)
 		n.mu.Lock()
 		defer n.mu.Unlock()
+		if key != n.key { // the case this request belongs to is over
+			n.fail(w, 503)
+			return
+		}
 		addr := "?"
 		var calls []string
+		var methods []int32
 		for i, c := range req.Calls {
+			methods = append(methods, c.MethodIndex)
 			if i == 0 {
 				addr = c.Address
 			} else if c.Address != addr {
@@ -609,7 +661,7 @@ func (n *fakeNode) serve(w http.ResponseWriter, r *http.Request) {
 			n.fail(w, 500)
 			return
 		}
-		st, body := a.body()
+		st, body := a.body(methods)
 		sh := a.shape
 		if sh == "" {
 			sh = "-"
